@@ -81,6 +81,9 @@ MEMBERS = [
     'C13_options_same_written_dedup_linked',
     'C13_options_same_written_provenance_linked',
     'C13_options_same_written_tr_linked',
+    'C13_senv_of_ok',
+    'C13_pot_fill_tr_inv',
+    'C13_options_same_written_tr_env_linked',
     'C13_fill_tr_items',
     'C13_finish_is_c01_prune_linked',
 ]
